@@ -675,6 +675,10 @@ int main(int argc, char** argv) {
   add_union<FArr<3> >(tasks, cfg, 1, 1.0f, 5, false, ud - 1, 3000000);
   add_union<FArr<3> >(tasks, cfg, 2, 1.0f, 5, true, ud, 3000000);
   add_union<FArr<1> >(tasks, cfg, 1, 0.5f, 5, true, ud, 3000000);
+  // unions built through each family's own builder (lg_k 5 is the smallest it accepts) with a sampling probability below 1
+  add_union<FArr<3> >(tasks, cfg, 5, 0.5f, 5, false, ud - 1, 3000000);
+  add_union<FArr<1> >(tasks, cfg, 5, 0.5f, 5, true, ud - 1, 3000000);
+  add_union<FInst>(tasks, cfg, 5, 0.5f, 5, false, ud - 1, 3000000);
   add_inter<FI64>(tasks, cfg, 5, false, ud - 1, 3000000);
   add_inter<FI64>(tasks, cfg, 5, true, ud, 3000000);
   add_inter<FInst>(tasks, cfg, 5, false, ud - 1, 3000000);
